@@ -12,7 +12,8 @@ SETTINGS = ["default_ns", "default_ew", "layout", "wait_to_parse", "parse_qq", "
 BOOLS = {"wait_to_parse", "parse_qq", "clean_qq", "sec_colon_required", "sec_colon_cautious", "suppress_lot_divs",
          "ocr_scrub", "segment", "break_halves", "sec_within"}
 VALUES = {s: ["True", "False"] for s in BOOLS}
-VALUES.update({"qq_depth": ["1", "2", "3"], "qq_depth_min": ["1", "2", "3"], "qq_depth_max": ["1", "2", "3"],
+# (0 is a depth like any other for the text codec: 'qq_depth_min.0'; the scenarios of the specification use 1..3)
+VALUES.update({"qq_depth": ["0", "1", "2", "3"], "qq_depth_min": ["0", "1", "2", "3"], "qq_depth_max": ["0", "1", "2", "3"],
                "default_ns": ["n", "s"], "default_ew": ["e", "w"],
                "layout": ["TRS_desc", "desc_STR", "S_desc_TR", "TR_desc_S", "copy_all"]})
 UNKNOWN = ["no_such_setting", "clean_qq,bogus", "bogus.True", "qq_deep.2", "cleanqq", "sec_colon", "layout_x.copy_all",
